@@ -11,7 +11,7 @@ def main(tier):
     chk = Check('C04', LEVEL, tier)
     for q in c04.FUNCS:
         chk.function_under_contract(q)
-    res = run_programs('contracts.c04', c04.PROGRAMS, timeout_ms=30000 if tier == 'quick' else 120000)
+    res = run_programs('contracts.c04', c04.programs(tier), timeout_ms=30000 if tier == 'quick' else 120000)
     absorb(chk, res, c04.replay, prefix='C04/')
     if os.path.exists(os.path.join(VERIF, 'bounded', 'c04_fromgeo.py')):
         b = run_bounded_script('c04_fromgeo.py', [tier, chk.seed], timeout=900 if tier == 'quick' else 3400)
